@@ -793,6 +793,10 @@ class Report:
                 "files_analysed": self.repo.files if self.repo else [],
                 "functions_indexed": len(self.repo.all_funcs()) if self.repo else 0,
                 "functions_consulted": sorted(f.qual for f in self.repo.consulted) if self.repo else [],
+                "functions_analysed_through_their_reference_twin": sorted(
+                    k for k, v in getattr(self.repo, "equivalence", {}).items() if v == "equivalent") if self.repo else [],
+                "functions_that_differ_from_the_reference": sorted(
+                    k for k, v in getattr(self.repo, "equivalence", {}).items() if v != "equivalent") if self.repo else [],
                 "known_findings_observed": [
                     {"rule": v["rule"], "construct": v["construct"]} for v, _ in known
                 ],
